@@ -219,3 +219,50 @@ impl Default for Config {
         Self::new()
     }
 }
+
+#[cfg(feature = "verif-hooks")]
+impl Config {
+    /// (Verification hook) Returns the current bytes threshold.
+    #[inline]
+    pub fn verif_bytes_threshold(&self) -> usize {
+        self.bytes_threshold
+    }
+
+    /// (Verification hook) Sets the current bytes threshold.
+    #[inline]
+    pub fn verif_set_bytes_threshold(&mut self, bytes_threshold: usize) {
+        self.bytes_threshold = bytes_threshold;
+    }
+
+    /// (Verification hook) Runs `adjust` on a detached configuration and state, returning the new bytes threshold.
+    pub fn verif_adjust(bytes_threshold: usize, adjustment_percent: f64, allocated_bytes: usize) -> usize {
+        let mut config = Config::new();
+        config.bytes_threshold = bytes_threshold;
+        config.adjustment_percent = adjustment_percent;
+        let state = State::verif_with_allocated_bytes(allocated_bytes);
+        config.adjust(&state);
+        config.bytes_threshold
+    }
+
+    /// (Verification hook) Runs `should_collect` on a detached configuration and state with an empty buffer
+    /// reporting `buffered` as its size.
+    pub fn verif_should_collect(
+        auto_collect: bool,
+        bytes_threshold: usize,
+        buffered_threshold: Option<NonZeroUsize>,
+        allocated_bytes: usize,
+        buffered: usize,
+    ) -> bool {
+        let mut config = Config::new();
+        config.auto_collect = auto_collect;
+        config.bytes_threshold = bytes_threshold;
+        config.buffered_threshold = buffered_threshold;
+        let state = State::verif_with_allocated_bytes(allocated_bytes);
+        let possible_cycles = PossibleCycles::new();
+        // SAFETY: the list is empty, only its cached size is changed (and reset before dropping it)
+        possible_cycles.verif_set_size(buffered);
+        let res = config.should_collect(&state, &possible_cycles);
+        possible_cycles.verif_set_size(0);
+        res
+    }
+}
